@@ -115,7 +115,7 @@ func runIPServer(ctx context.Context, log *slog.Logger, mtrcs *ipServerMetrics,
 				continue
 			}
 
-			key, ok := provider.Get(int(encryptedCookie.ID))
+			key, ok := provider.Lookup(encryptedCookie.ID)
 			if !ok {
 				log.LogAttrs(ctx, slog.LevelInfo, "failed to get key")
 				continue
